@@ -367,7 +367,7 @@ def ob_consts(run):
         if diffs:
             run.replay(o, "consts:" + diffs[0].split()[0].split("=")[0], "published constants differ: %s" % diffs[:4],
                        '''import sys
-sys.path.insert(0, "/repo"); sys.path.insert(0, "/verif")
+sys.path.insert(0, __import__("os").environ.get("VERIF_REPO", "/repo")); sys.path.insert(0, "/verif")
 from rpyc.core import consts
 from specs import ref_wire as W
 bad = [k for k, v in list(W.MSG.items()) if getattr(consts, "MSG_" + k, None) != v]
